@@ -116,7 +116,9 @@ def coq_makefile():
 def coq_make(targets, timeout=1500):
     """make the given .vo targets. -> (ok, output, failing_file, failing_detail)"""
     coq_makefile()
-    cmd = ['timeout', str(timeout), 'make', '-j%d' % NPROC, '-k'] + targets
+    # every sentence gets a time limit (the slowest one takes ~35 s): a proof that no longer goes through must fail,
+    # not diverge (a `reflexivity` on two different symbolic strings can run for hours)
+    cmd = ['timeout', str(timeout), 'make', '-j%d' % NPROC, '-k', 'COQEXTRAFLAGS=-set "Default Timeout=400"'] + targets
     t0 = time.time()
     p = subprocess.run(cmd, cwd=COQ, capture_output=True, text=True)
     out = p.stdout + p.stderr
